@@ -130,7 +130,7 @@ pub fn run_c03(out: &mut Out, tier: &str, seed: u64) {
                 }
                 _ => {
                     // deliver something wrong
-                    let kind = rng.below(7);
+                    let kind = rng.below(8);
                     let cand: Option<(String, Vec<u8>, Vec<u8>)> = match kind {
                         0 => { // replay of an already delivered message
                             let d: Vec<&Item> = queue[..next].iter().filter(|i| matches!(i, Item::Msg { .. })).collect();
@@ -146,12 +146,14 @@ pub fn run_c03(out: &mut Out, tier: &str, seed: u64) {
                         3 => { if let Some(Item::Msg { c, ad, .. }) = queue.get(next) { let mut a2 = ad.clone(); if a2.is_empty() { a2.push(1) } else { let i = rng.below(a2.len() as u64) as usize; a2[i] ^= 1 << rng.below(8); } Some(("wrong-ad".into(), c.clone(), a2)) } else { None } }
                         4 => { if let Some(Item::Msg { c, ad, .. }) = queue.get(next) { let mut c2 = c.clone(); let i = rng.below(c2.len() as u64) as usize; c2[i] ^= 1 << rng.below(8); Some(("bit-flip".into(), c2, ad.clone())) } else { None } }
                         5 => { if let Some(Item::Msg { c, ad, .. }) = queue.get(next) { let t = rng.below(c.len() as u64) as usize; Some(("truncated".into(), c[..t].to_vec(), ad.clone())) } else { None } }
-                        _ => { if let Some(Item::Msg { c, ad, .. }) = queue.get(next) { let mut a2 = ad.clone(); { let l = 1 + rng.below(17) as usize; a2.extend(rng.bytes(l)); } Some(("longer-ad".into(), c.clone(), a2)) } else { None } }
+                        6 => { if let Some(Item::Msg { c, ad, .. }) = queue.get(next) { let mut a2 = ad.clone(); { let l = 1 + rng.below(17) as usize; a2.extend(rng.bytes(l)); } Some(("longer-ad".into(), c.clone(), a2)) } else { None } }
+                        // the genuine next ciphertext, but the caller's message buffer is too short for it: refused, nothing moved
+                        _ => { if let Some(Item::Msg { c, ad, .. }) = queue.get(next) { if c.len() > 17 { Some(("short-buffer".into(), c.clone(), ad.clone())) } else { None } } else { None } }
                     };
                     if let Some((kname, c, ad)) = cand {
                         *kind_counts.entry(kname.clone()).or_insert(0) += 1;
                         let before = dl.verif_parts();
-                        let mbl = c.len().saturating_sub(17);
+                        let mbl = if kname == "short-buffer" { let full = c.len() - 17; full - 1 - rng.below(full as u64) as usize } else { c.len().saturating_sub(17) };
                         let (r, mb, tv) = d_pull(&mut dl, &c, &ad, mbl);
                         let _ = sl.clone().pull(&c, &ad);
                         out.search_evaluations += 1;
@@ -221,6 +223,27 @@ pub fn run_c03(out: &mut Out, tier: &str, seed: u64) {
 pub fn tamper_stream(out: &mut Out, tier: &str, seed: u64, c02: bool, c17: bool) {
     let mut rng = Rng::new(seed, "tamper-stream");
     let thorough = tier == "thorough";
+    // untampered input is accepted -- also the messages AFTER one that carried any tag byte (libsodium pushes accept every byte
+    // and rekey on bit 1): the pull side stays in step, through the classic and the object interface
+    if c02 {
+        let key: [u8; 32] = rng.arr(); let header: [u8; 24] = rng.arr();
+        for tagb in 0..=255u8 {
+            if !thorough && tagb > 8 && tagb % 7 != 2 && tagb & 0x7c != 0x7c { continue; }
+            let mut sp = SStream::init(&header, &key);
+            let mut dl = d_init(&header, &key);
+            let mut obj = DryocStream::init_pull(&StackByteArray::<32>::from(&key), &StackByteArray::<24>::from(&header));
+            let msgs: Vec<(Vec<u8>, Vec<u8>, u8)> = vec![(rng.bytes(9), rng.bytes(3), tagb), (rng.bytes(20), vec![], 0), (rng.bytes(1), rng.bytes(16), 0)];
+            for (j, (m, ad, t)) in msgs.iter().enumerate() {
+                let c = sp.push(m, ad, *t);
+                out.search_evaluations += 2;
+                let rp = json!({"op":"stream.sequence-after-tag","key":hx(&key),"header":hx(&header),"first_tag":tagb,"message_index":j,"c":hx(&c),"ad":hx(ad)});
+                let (r, mb, tv) = d_pull(&mut dl, &c, ad, m.len());
+                if !(r.is_ok() && mb == *m && tv == *t) { out.hit("stream.pull.rejects-untampered.after-tag", format!("message {} of a stream whose first message carried tag {:#04x} ({})", j, tagb, r.class()), rp.clone()); break; }
+                let ro = guard(|| obj.pull_to_vec(&c, Some(ad)));
+                match ro { Outcome::Ok((mm, _)) if mm == *m => {}, o => { out.hit("obj.stream.pull.rejects-untampered.after-tag", format!("message {} of a stream whose first message carried tag {:#04x} ({})", j, tagb, o.class()), rp.clone()); break; } }
+            }
+        }
+    }
     let maxlen = if thorough { 120 } else { 36 };
     let key: [u8; 32] = rng.arr();
     let header: [u8; 24] = rng.arr();
